@@ -11,6 +11,7 @@ import (
 	"fmt"
 	"os"
 	"path/filepath"
+	"runtime"
 	"runtime/debug"
 	"strings"
 	"sync"
@@ -100,9 +101,12 @@ func main() {
 
 	if r.ReplayFile != "" {
 		var doc struct {
-			Seed    int64   `json:"seed"`
-			Tier    string  `json:"tier"`
-			Witness witness `json:"witness"`
+			Seed    int64  `json:"seed"`
+			Tier    string `json:"tier"`
+			Witness struct {
+				witness
+				Minimal bool `json:"minimal_witness"`
+			} `json:"witness"`
 		}
 		b, err := os.ReadFile(r.ReplayFile)
 		if err != nil || json.Unmarshal(b, &doc) != nil {
@@ -111,14 +115,24 @@ func main() {
 		}
 		r.Seed, r.Tier = doc.Seed, doc.Tier
 		rn.nParams, rn.nDeep, rn.maxKeys, rn.limit = r.Pick(6, 20), r.Pick(6, 4), r.Pick(1200, 5000), r.Pick(12, 32)
-		rn.runTree(doc.Witness.Tree, doc.Witness.Param)
+		replayAbortedMultipartWitness(r)
+		replayRootListedAfterAbortWitness(r)
+		if !doc.Witness.Minimal {
+			rn.runTree(doc.Witness.Tree, doc.Witness.Param)
+		}
 		rn.finish(1)
 		return
 	}
 
 	replayAbortedMultipartWitness(r)
 	replayRootListedAfterAbortWitness(r)
-	evid.Parallel(nTrees, 0, func(i int) { rn.runTree(i, -1) })
+	// Every worker holds two or three open badger instances (64 MB memtable arenas, times the race
+	// detector's shadow memory), so the number of workers is capped to keep the peak RSS near 5 GB.
+	workers := runtime.NumCPU()
+	if workers > 12 {
+		workers = 12
+	}
+	evid.Parallel(nTrees, workers, func(i int) { rn.runTree(i, -1) })
 	rn.finish(r.Pick(40, 150))
 }
 
